@@ -449,6 +449,36 @@ def check_simulated_records(ctx, cirq):
             got_b = {k: np.asarray(v).astype(int).tolist() for k, v in back.records.items()}
             if got_b != exp:
                 ctx.report_witness('records:json', 'a simulated result does not survive its JSON round trip', dict(rep, impl_out=[got_b, {k: dict(c=bool(np.asarray(v).flags['C_CONTIGUOUS'])) for k, v in res.records.items()}], spec_out=[exp]))
+    # a result with a repeated key has no 2-D view: asking twice gives the same answer (an error), never a partial mapping
+    rr = cirq.ResultDict(params=cirq.ParamResolver({}), records={'a': np.array([[[1]]], dtype=np.uint8), 'b': np.array([[[0], [1]]], dtype=np.uint8), 'c': np.array([[[1]]], dtype=np.uint8)})
+    answers = []
+    for _ in range(2):
+        try:
+            answers.append(sorted(rr.measurements))
+        except ValueError:
+            answers.append('ValueError')
+    ctx.count('check', 'measurements-view:repeated-key')
+    if answers[0] != answers[1] or answers[0] not in ('ValueError', ['a', 'b', 'c']):
+        ctx.report_witness('views:measurements:partial', 'the 2-D view of a result with a repeated key answers differently the second time (a partial mapping was cached)', {'lines': [{'records': 'a: 1 instance, b: 2 instances, c: 1 instance'}],
+                           'impl_out': [answers], 'spec_out': [['ValueError', 'ValueError']], 'theorem_or_correspondence': 'views of one result'})
+    # keys recorded by channels (the index of the operator that was applied): [repetition][instance][1], like any other key
+    qk = cirq.LineQubit(0)
+    for inst in (1, 2, 3):
+        ch = cirq.KrausChannel([np.eye(2) * np.sqrt(0.5), np.eye(2) * np.sqrt(0.5)], key='k')
+        mu = cirq.MixedUnitaryChannel([(0.5, np.eye(2)), (0.5, cirq.unitary(cirq.X))], key='u')
+        for nm, cc in (('KrausChannel', ch), ('MixedUnitaryChannel', mu)):
+            for reps in (1, 3):
+                try:
+                    res = cirq.Simulator(seed=1).run(cirq.Circuit([cirq.Moment(cc.on(qk)) for _ in range(inst)] + [cirq.measure(qk, key='m')]), repetitions=reps)
+                except (ValueError, TypeError) as e:
+                    ctx.count('sim_error', f'channel-key:{type(e).__name__}')
+                    continue
+                ctx.count('check', 'channel-key-records')
+                key = 'k' if nm == 'KrausChannel' else 'u'
+                shape = tuple(np.asarray(res.records[key]).shape)
+                if shape != (reps, inst, 1):
+                    ctx.report_witness('records:channel-key-shape', 'the records of a key written by a channel are not [repetition][instance][1]', {'lines': [{'channel': nm, 'instances': inst, 'repetitions': reps}], 'impl_out': [list(shape)],
+                                       'spec_out': [[reps, inst, 1]], 'theorem_or_correspondence': 'records[key][repetition][instance][qubit] (C18 layout)'})
     # user-built records in every memory layout
     for it in range(20 if ctx.tier == 'quick' else 200):
         r, i, w = rng.randint(1, 5), rng.randint(1, 3), rng.randint(1, 4)
